@@ -19,7 +19,7 @@ CHECKS = {
              "sorter Morass.tla (sorted output, exact multiset, Len/Pos); both as-found variants are refuted as "
              "negative controls. Every behaviour of a bounded instance is executed on a real *morass.Morass and "
              "random larger histories (chunk up to 100, 4 cycles, both element types, both modes) are logged; "
-             "MorassTrace.tla accepts a log only if every call is a step of the abstract sorter.",
+             "MorassTrace.tla accepts a log only if every call is a step of the abstract sorter. Random histories are also run with the concurrent constructor flag forced and with chunk sizes that are not powers of two (a buffer grown by append has a larger capacity than the chunk size).",
         note="Trusted: TLC, the Go driver's event logging, distinct value identities per cycle. Usage restricted to "
              "the grammar the property states. The verif-tagged accessor VerifView is used for a model-drift note only.",
         ref="DESIGN.md §6 C11"),
@@ -48,7 +48,7 @@ CHECKS = {
              "AutoClean / CleanUp residue invariants over all histories and refutes the as-found in-memory path. "
              "Simulated (fault, schedule) pairs are executed on the real code by closing the run file or hiding the "
              "directory at the corresponding hook; model histories with residue logged and 800 random single-fault "
-             "runs (also Seek / Decode / Pull read failures) are validated by MorassTrace.tla.",
+             "runs (also Seek / Decode / Pull read failures) are validated by MorassTrace.tla. Every single-fault run ends with (sometimes Clear and) CleanUp, after which the temporary directory must be gone, including after a Clear that failed half way on a removed run file.",
         note="Trusted: one failing operation per run; failures induced via closed descriptors / hidden directory / "
              "corrupted run; directory listing after each call; CleanUp only at quiescence.",
         ref="DESIGN.md §6 C13"),
@@ -63,7 +63,7 @@ CHECKS = {
              "variants are refuted. Simulated Processor schedules are executed deterministically on the real code in "
              "a child process; steered Promise executions (goroutines held and released at the hooks) are accepted only "
              "if PromiseTrace.tla finds a model behaviour with exactly these observations; Map's chunks must "
-             "partition the input.",
+             "partition the input. The Processor model includes panicking operations (the worker sends the error Result, then leaves); a Result sent after the worker is counted out is refuted as a negative control. PromiseSeq.tla gives every Promise method as a function of the mailbox and the three flags: all call sequences up to four are model-checked and about 2 000 call sequences per run are executed on real promises for all eight flag combinations. Map runs under a watchdog with a parked runaway.",
         note="Trusted: atomicity of hook-to-hook segments, goroutine identity via runtime.Stack, timing margins for "
              "'blocked' claims, non-nil fulfil values, relay promises judged on value only.",
         ref="DESIGN.md §6 C19"),
@@ -102,7 +102,7 @@ CHECKS = {
              "to every file of the bounded model and TLC checks that the reader specification still returns the records; "
              "the as-found reader that drops an unterminated last line is refuted. Every transformed file is read by "
              "the real readers, and random real files are re-laid-out (wrap widths up to 20 000, physical lines longer "
-             "than 4096 bytes) and read back; FormatsTrace.tla demands exactly the generating records.",
+             "than 4096 bytes) and read back; FormatsTrace.tla demands exactly the generating records. BED and GFF files with one line at bufio buffer boundaries (4093-4097, 8190-8193 bytes) are read under LF, CRLF and without final newline.",
         note=COMMON, ref="DESIGN.md §6 C01-C04"),
     "C16": dict(
         technique="TLA+ piler state machine (operational merge vs declarative connected components) checked by TLC over "
@@ -153,7 +153,7 @@ CHECKS = {
              "letters; the as-found Multi re-offsetting is refuted. The histories of the bounded model and random "
              "histories (6 rows x 30 columns, 6 edits, Clone-then-mutate probes, Set) run on linear.Seq/QSeq, "
              "alignment.Seq/QSeq and multi.Multi; SeqTrace.tla applies each edit to the model and compares the row view, "
-             "the column view, Start/End/Len and strands.",
+             "the column view, Start/End/Len and strands. RevComp/Reverse of a single row through the row view and length-0 values of every kind are exercised as well.",
         note=SEQNOTE, ref="DESIGN.md §6 C05-C07"),
     "C06": dict(
         technique="positional TLA+ definitions of Truncate/Join/Stitch/Compose/Trim; TLC checks the code-shaped "
@@ -204,7 +204,7 @@ CHECKS = {
              "The driver calls all six aligners on every pair of length <= 3 under random small-valued (symmetric and "
              "asymmetric, tie-rich, zero-gap) matrices and on random DNA/protein pairs up to 60 (200 thorough) letters; "
              "AlignTrace.tla recomputes the path's score and compares it with Opt (for the fitted aligners: among "
-             "alignments ending at the returned reference position).",
+             "alignments ending at the returned reference position). Every record gets a C08 verdict of its own: the alignment returned is scored from its letters, also when the reported pair scores are unfaithful (a C09 matter). Each recorded finding carries a witness call that is repeated on the real aligner in every run.",
         note=ALIGNNOTE, ref="DESIGN.md §6 C08/C09"),
     "C09": dict(
         technique="TLA+ predicates for path shape, abutment, bounds and per-pair scores, evaluated by TLC on every "
@@ -215,7 +215,7 @@ CHECKS = {
              "score recomputed from letters, matrix and gap parameters; quality-letter input gives the same pairs; "
              "Format rows have equal length and degap to the aligned subsequences. 900 ill-typed calls (a letter outside "
              "the alphabet at every position, other alphabet, no gap at index 0, mixed slice types, ragged / undersized "
-             "/ empty matrix) must return an error, never panic.",
+             "/ empty matrix) must return an error, never panic. Every record gets a C09 verdict of its own, independent of optimality (C08). Each recorded finding carries a witness call that is repeated on the real aligner in every run.",
         note=ALIGNNOTE, ref="DESIGN.md §6 C08/C09"),
     "C10": dict(
         technique="TLA+ rolling-word state machine and counting-sort Build checked against declarative occurrences by TLC "
@@ -255,7 +255,7 @@ CHECKS = {
              "strands, self and non-self - and PalsTrace.tla judges every hit (inside both sequences, both lengths >= "
              "minimum, error <= 1 - minimum identity, and for a sample of hits score <= the optimal global alignment "
              "score of its regions under +1/-3/-3) and requires every planted copy to be recovered by the pass of its "
-             "strand, and no trivial self hit.",
+             "strand, and no trivial self hit. PalsSelf.tla states the geometry of filter tubes, the merger's self-comparison guard and the aligner's band around the main diagonal (negative control: the guard as found, refuted); self comparisons over 45 consecutive lengths with a tandem repeat bind it to the code. Short repeats (1.2 x minimum) with substitutions near their ends are planted too.",
         note="Trusted: the driver's planting of repeats and coordinate bookkeeping. The score bound is judged for a sample "
              "of hits with regions <= 170 letters; recall is judged for copies >= 1.5 x minimum length with at most a third "
              "of the allowed differences.",
